@@ -1,5 +1,6 @@
 import Ucan.Gen.Decode
 import Ucan.Props.Tie.Command
+import Ucan.Props.Tie.CommandApi
 import Ucan.Props.Tie.ParseTime
 /-!
 Regenerated-code tie for the two `tokenFromModel` functions (token/delegation/delegation.go, token/invocation/invocation.go): the
@@ -273,6 +274,97 @@ theorem Inv_tokenFromModel_wellformed (lower : Bytes → Bytes) (didParse : Byte
     exact OptionalTimestamp_some_bounds m.Exp b exp h6 hb
   · intro b hb
     exact OptionalTimestamp_some_bounds m.Iat b iat h7 hb
+
+/-- a time bound as `validate()` sees it: absent, or within the range of the wire format -/
+def boundOk (o : Option Int) : Bool :=
+  match o with
+  | none => true
+  | some b => decide (Facts.minInt53 ≤ b ∧ b ≤ Facts.maxInt53)
+
+/-- the time test of `validate()` (`ti != nil && (ti.Unix() > Max || ti.Unix() < Min)`), regenerated: no nil dereference -/
+theorem checkTime_eq (o : Option Int) :
+    (gand (notNil o) (do (gor (decide ((← (deref o)) > Ucan.Facts.maxInt53)) (do pure (decide ((← (deref o)) < Ucan.Facts.minInt53))))) : GoM Bool)
+      = .ok (!(boundOk o)) := by
+  cases o with
+  | none => simp [gand, notNil, boundOk, pure, Except.pure]
+  | some b =>
+    by_cases h1 : b > Facts.maxInt53
+    · have : ¬ (Facts.minInt53 ≤ b ∧ b ≤ Facts.maxInt53) := by omega
+      simp [gand, gor, notNil, deref, boundOk, h1, this, bind, Except.bind, pure, Except.pure]
+    · by_cases h2 : b < Facts.minInt53
+      · have : ¬ (Facts.minInt53 ≤ b ∧ b ≤ Facts.maxInt53) := by omega
+        simp [gand, gor, notNil, deref, boundOk, h1, h2, this, bind, Except.bind, pure, Except.pure]
+      · have : Facts.minInt53 ≤ b ∧ b ≤ Facts.maxInt53 := by omega
+        simp [gand, gor, notNil, deref, boundOk, h1, h2, this, bind, Except.bind, pure, Except.pure]
+
+theorem joinErr_ne_none (o : Option GoErr) (e : GoErr) : joinErr o e ≠ none := by simp [joinErr]
+
+/-- `if c then errs := joinErr errs e`, as a value -/
+def accErr (errs : Option GoErr) (c : Bool) (e : GoErr) : Option GoErr := if c then joinErr errs e else errs
+
+theorem accErr_none_iff (errs : Option GoErr) (c : Bool) (e : GoErr) : accErr errs c e = none ↔ errs = none ∧ c = false := by
+  unfold accErr
+  cases c <;> simp [joinErr]
+
+theorem Dlg_validate_ok_iff (lower : Bytes → Bytes) (defined : D → Bool) (t : Gen.DlgDec D S M) :
+    Gen.Dlg_validate lower defined t = .ok () ↔
+      defined t.issuer = true ∧ defined t.audience = true ∧ 12 ≤ t.nonce.length ∧ (Command.parse lower t.command).isOk = true ∧
+        boundOk t.notBefore = true ∧ boundOk t.expiration = true := by
+  unfold Gen.Dlg_validate
+  simp only [Command_IsValid_eq, checkTime_eq]
+  have hlen : (decide (len t.nonce < (12 : Int)) = true) ↔ ¬ 12 ≤ t.nonce.length := by
+    unfold len
+    rw [decide_eq_true_eq]
+    constructor <;> intro h <;> omega
+  cases h1 : defined t.issuer <;> cases h2 : defined t.audience <;> by_cases h3 : 12 ≤ t.nonce.length <;>
+    cases h4 : (Command.parse lower t.command).isOk <;> cases h5 : boundOk t.notBefore <;> cases h6 : boundOk t.expiration <;>
+    simp [h1, h2, h3, h4, h5, h6, hlen, joinErr, bind, Except.bind, pure, Except.pure, throw, throwThe, MonadExceptOf.throw]
+
+theorem Inv_validate_ok_iff (lower : Bytes → Bytes) (defined : D → Bool) (t : Gen.InvDec D C A M) :
+    Gen.Inv_validate lower defined t = .ok () ↔
+      defined t.issuer = true ∧ defined t.subject = true ∧ 12 ≤ t.nonce.length ∧ (Command.parse lower t.command).isOk = true ∧
+        boundOk t.expiration = true ∧ boundOk t.invokedAt = true := by
+  unfold Gen.Inv_validate
+  simp only [Command_IsValid_eq, checkTime_eq]
+  have hlen : (decide (len t.nonce < (12 : Int)) = true) ↔ ¬ 12 ≤ t.nonce.length := by
+    unfold len
+    rw [decide_eq_true_eq]
+    constructor <;> intro h <;> omega
+  cases h1 : defined t.issuer <;> cases h2 : defined t.subject <;> by_cases h3 : 12 ≤ t.nonce.length <;>
+    cases h4 : (Command.parse lower t.command).isOk <;> cases h5 : boundOk t.expiration <;> cases h6 : boundOk t.invokedAt <;>
+    simp [h1, h2, h3, h4, h5, h6, hlen, joinErr, bind, Except.bind, pure, Except.pure, throw, throwThe, MonadExceptOf.throw]
+
+/-- C10 on the regenerated delegation decoder WITH the regenerated `validate()`: a delegation that comes out of
+`tokenFromModel` has a defined issuer and audience, a nonce of at least 12 bytes, a command the model's `parse` accepts (and
+it is the payload's command, unchanged), and time bounds within ±(2^53−1). `did.Parse`, `parse.OptionalDID`,
+`policy.FromIPLD`, `DID.Defined` remain parameters. -/
+theorem Dlg_decode_wellformed (lower : Bytes → Bytes) (didParse : Bytes → GoM D) (optDID : Option Bytes → GoM D)
+    (polFromIPLD : N → GoM (List (Option S))) (newMeta : M) (defined : D → Bool) (m : Gen.DlgModel N M) (t : Gen.DlgDec D S M)
+    (h : Gen.Dlg_tokenFromModel lower didParse optDID polFromIPLD newMeta (Gen.Dlg_validate lower defined) m = .ok t) :
+    defined t.issuer = true ∧ defined t.audience = true ∧ 12 ≤ t.nonce.length ∧ t.nonce = m.Nonce ∧
+      Command.parse lower m.Cmd = .ok t.command ∧ boundOk t.notBefore = true ∧ boundOk t.expiration = true := by
+  obtain ⟨hc, hn, _, hv, _, _, _⟩ := Dlg_tokenFromModel_wellformed lower didParse optDID polFromIPLD newMeta _ m t h
+  obtain ⟨h1, h2, h3, _, h5, h6⟩ := (Dlg_validate_ok_iff lower defined t).1 hv
+  exact ⟨h1, h2, h3, hn, hc, h5, h6⟩
+
+/-- … and the invocation decoder: defined issuer and subject, nonce ≥ 12 bytes, valid command, bounds in range, arguments
+validated, proofs and cause as in the payload -/
+theorem Inv_decode_wellformed (lower : Bytes → Bytes) (didParse : Bytes → GoM D) (optDID : Option Bytes → GoM D)
+    (newMeta : M) (defined : D → Bool) (argsValidate : A → GoM Unit) (m : Gen.InvModel C A M) (t : Gen.InvDec D C A M)
+    (h : Gen.Inv_tokenFromModel lower didParse optDID newMeta (Gen.Inv_validate lower defined) argsValidate m = .ok t) :
+    defined t.issuer = true ∧ defined t.subject = true ∧ 12 ≤ t.nonce.length ∧ t.nonce = m.Nonce ∧
+      Command.parse lower m.Cmd = .ok t.command ∧ argsValidate t.arguments = .ok () ∧ t.proof = m.Prf ∧ t.cause = m.Cause ∧
+      boundOk t.expiration = true ∧ boundOk t.invokedAt = true := by
+  obtain ⟨hc, hn, _, hv, ha, _, hp, hca, _, _⟩ := Inv_tokenFromModel_wellformed lower didParse optDID newMeta _ argsValidate m t h
+  obtain ⟨h1, h2, h3, _, h5, h6⟩ := (Inv_validate_ok_iff lower defined t).1 hv
+  exact ⟨h1, h2, h3, hn, hc, ha, hp, hca, h5, h6⟩
+
+/-- the bound of 12 is not vacuous: an 11-byte nonce is refused by the regenerated `validate()` whatever else holds -/
+example (lower : Bytes → Bytes) (t : Gen.DlgDec Nat Unit Unit) (h : t.nonce.length = 11) :
+    Gen.Dlg_validate lower (fun _ => true) t ≠ .ok () := by
+  intro hv
+  have := ((Dlg_validate_ok_iff lower (fun _ => true) t).1 hv).2.2.1
+  omega
 
 /-- non-vacuity: with parsers that accept and a `validate` that accepts, a payload gives the expected token -/
 example : Gen.Dlg_tokenFromModel (D := Nat) (S := Unit) (N := Unit) (M := Unit) (fun s => s) (fun _ => .ok 1) (fun _ => .ok 2)
